@@ -436,6 +436,8 @@ def run_shift(tier):
 
 
 def run_dconc():
+    from .common import defaults_facts
+    defaults_facts(['extrapolation.Dea.__init__'])
     from ndvc.concrete import dea_cases
     cnt, bad = dea_cases(mods()['ex'])
     solve.fact('Dea-on-concrete-sequences:finite,floor,first-three-terms==dea3,transients-recovered,limit-kept-with-a-full-table[%d cases]' % cnt, not bad, kind='bounded', note=str(bad[:2])[:400])
